@@ -371,13 +371,13 @@ def run_topology(idx, spec):
             # "the target acknowledged without SACK blocks" contradicts a topology whose target has SACK enabled, and
             # neither loss nor load makes a Linux receiver answer an in-window out-of-order byte like that; it is what
             # a probe outside the connection's window gets. It may show in a fraction of the runs only (it needs another
-            # connection's SYN-ACK to be captured first), so it is sampled: reported when it shows again in 6 more attempts.
+            # connection's SYN-ACK to be captured first), so it is sampled: reported when it shows again in 10 more attempts.
             sack_ok = spec.get("port_open") and not spec.get("tcp_sack_off") and not spec.get("dest_filtered")
             claims_no_sack = lambda r: r["rc"] != 0 and ("no SACK options" in r.get("stderr_full", "") or "missing SACK-permitted" in r.get("stderr_full", ""))
             if proto == "tcp" and method == "sack" and sack_ok and not RACE and (spec["queries"] > 1 or spec["e2e"] > 0) and not bad:
                 # several SACK runs to one target at once: whether a run meets a foreign SYN-ACK first is a matter of
                 # timing, so a clean first attempt is followed by two more looks
-                for _ in range(2):
+                for _ in range(spec.get("sack_looks", 3) - 1):
                     r2 = t.trace(proto, method, max_ttl, spec["queries"], spec["e2e"], spec["timeout_ms"])
                     attempts += 1
                     if claims_no_sack(r2):
@@ -385,7 +385,7 @@ def run_topology(idx, spec):
                         break
             if proto == "tcp" and method == "sack" and sack_ok and not RACE and claims_no_sack(res):
                 seen, total = 1, 1
-                for _ in range(6):
+                for _ in range(10):
                     r2 = t.trace(proto, method, max_ttl, spec["queries"], spec["e2e"], max(spec["timeout_ms"], 500))
                     total += 1
                     attempts += 1
@@ -498,12 +498,12 @@ def main():
         if len(specs) > 4:
             # several SACK runs to one target and nothing else going on: every capture handle sees every run's SYN-ACK
             specs[4] = {"routers": 2, "port": 443, "port_open": True, "tcp_sack_off": False, "silent": [], "max_ttl_delta": 1, "queries": 3, "e2e": 0,
-                        "protos": ["tcp:sack", "tcp:prefer_sack", "tcp:sack"], "timeout_ms": 500, "concurrent_cli": False}
+                        "protos": ["tcp:sack", "tcp:prefer_sack", "tcp:sack"], "timeout_ms": 500, "concurrent_cli": False, "sack_looks": 10 if TIER == "quick" else 16}
         if len(specs) > 5:
             # SACK runs next to end-to-end SYN probes to the same target: the target's SYN-ACK to an option-less SYN
             # (no SACK-permitted) is captured by every SACK run that is in its handshake at that moment
             specs[5] = {"routers": 2, "port": 443, "port_open": True, "tcp_sack_off": False, "silent": [], "max_ttl_delta": 1, "queries": 3, "e2e": 3,
-                        "protos": ["tcp:sack", "tcp:sack", "tcp:prefer_sack"], "timeout_ms": 500, "concurrent_cli": False}
+                        "protos": ["tcp:sack", "tcp:sack", "tcp:prefer_sack"], "timeout_ms": 500, "concurrent_cli": False, "sack_looks": 10 if TIER == "quick" else 16}
         if len(specs) > 6:
             # the parallel drivers on a short, fast path, many times: the kernel answers within microseconds here
             specs[6] = {"routers": 2, "port": 443, "port_open": True, "tcp_sack_off": False, "silent": [], "max_ttl_delta": 1, "queries": 3, "e2e": 0,
